@@ -21,6 +21,13 @@ void vf_obj_dtor(void* p);
 
 namespace vf
 {
+// trivially copyable object of exactly N bytes with alignment 1
+template <unsigned N>
+struct B
+{
+    unsigned char b[N];
+};
+
 // F: bit0 POCCA, bit1 POCMA, bit2 POCS, bit3 is_always_equal
 template <class T, unsigned F>
 struct LedgerAlloc
